@@ -166,6 +166,14 @@ theorem link_ok {c : Cfg} {fs fs' : FS} {o n : Text} (h : act c fs (.link o n) =
       | error e => simp [ho, errOf] at h
       | ok t =>
         simp only [ho] at h
+        cases htd : (fs.node t).dir with
+        | true => simp [htd, errOf] at h
+        | false =>
+        simp only [htd, Bool.false_eq_true, if_false] at h
+        cases hdn : dotName (base n) with
+        | true => simp [hdn, errOf] at h
+        | false =>
+        simp only [hdn, Bool.false_eq_true, if_false] at h
         cases hl : fs.lookup pi (base n) with
         | some x => simp [hl, errOf] at h
         | none =>
